@@ -11,10 +11,11 @@ AUXK = ["polygon", "segment", "tangent"]
 HSHAPES = [[], [2], [2, 3]]
 OPS = ["copy", "apply", "reshape", "flatten", "index", "setitem", "stack", "combine", "astype"]
 QUERIES = {
-    "polygon": ["coords", "get_edges", "get_vertices", "edge_circles", "circle_parameters", "edge_ideal"],
+    "polygon": ["coords", "get_edges", "get_vertices", "edge_circles", "circle_parameters", "edge_ideal", "self_hyperboloid", "self_distance"],
     "segment": ["coords", "circle_parameters", "endpoint_coords", "ideal_endpoint_coords", "geodesic", "end_pair", "sphere_parameters",
-                "endpoint_distance", "endpoint_origin_to"],
-    "tangent": ["coords", "normalized", "origin_to", "angle", "point_along", "isometry_to", "point_vector", "base_distance"],
+                "endpoint_distance", "endpoint_origin_to", "self_hyperboloid", "self_distance"],
+    "tangent": ["coords", "normalized", "origin_to", "angle", "point_along", "isometry_to", "point_vector", "base_distance",
+                "self_hyperboloid", "self_distance"],
 }
 TOL = 1e-6
 
@@ -54,22 +55,88 @@ class Hist:
         self.inputs.append((name, arr, arr.copy()))
         return arr
 
+    def rescale(self, proj):
+        """another representative of the same projective points: every row times its own non-zero factor of either sign"""
+        g = self.g
+        f = g.uniform(0.3, 3.0, proj.shape[:-1] + (1,)) * g.choice([-1.0, 1.0], proj.shape[:-1] + (1,))
+        return proj * f
+
+    def pts(self, shape, ideal=False):
+        n, g = self.n, self.g
+        k = O.ideal(g, shape, n) if ideal else O.klein(g, shape, n)
+        return np.concatenate([np.ones(tuple(shape) + (1,)), k], axis=-1)
+
     def make(self, shape):
         g, n, kind = self.g, self.n, self.kind
+        shape = tuple(shape)
+        style = g.random()
         if kind == "polygon":
-            k = self.supply("polygon_klein", O.klein(g, shape + (4,), n))
-            return H.Polygon(H.Point(k, model="klein"))
+            if style < 0.4:
+                k = self.supply("polygon_klein", O.klein(g, shape + (4,), n))
+                return H.Polygon(H.Point(k, model="klein"))
+            v = self.pts(shape + (4,))
+            idl = self.pts(shape + (4,), ideal=True)
+            mask = g.random(shape + (4, 1)) < 0.2                       # some ideal vertices
+            raw = self.supply("polygon_proj", self.rescale(np.where(mask, idl, v)))
+            return H.Polygon(raw)
         if kind == "segment":
+            if style < 0.3:
+                while True:
+                    a, b = O.klein(g, shape, n), O.klein(g, shape, n)
+                    if np.min(np.linalg.norm(a - b, axis=-1)) > 0.15:
+                        break
+                self.supply("seg_a", a)
+                self.supply("seg_b", b)
+                return H.Segment(H.Point(a, model="klein"), H.Point(b, model="klein"))
+            # endpoints interior or ideal in every combination, arbitrary representatives (either sign, any scale)
             while True:
-                a, b = O.klein(g, shape, n), O.klein(g, shape, n)
-                if np.min(np.linalg.norm(a - b, axis=-1)) > 0.15:
+                ends = []
+                for _ in range(2):
+                    c = g.random()
+                    if c < 0.5:
+                        ends.append(self.pts(shape))
+                    elif c < 0.85:
+                        ends.append(self.pts(shape, ideal=True))
+                    else:
+                        # an ideal point as the library itself produces it: fixed point of a loxodromic isometry (eigenvector, arbitrary sign)
+                        T = O.isometries(g, shape, n)
+                        L = H.Isometry.standard_loxodromic(n, float(g.uniform(1.5, 3.0)))
+                        Xi = H.Isometry(utils.matrix_product(utils.matrix_product(utils.invert(T.proj_data), L.proj_data), T.proj_data))
+                        ends.append(np.real(np.array(Xi.fixed_point().proj_data)))
+                ka, kb = ends[0][..., 1:] / ends[0][..., :1], ends[1][..., 1:] / ends[1][..., :1]
+                if np.min(np.linalg.norm(ka - kb, axis=-1)) > 0.15:
                     break
-            self.supply("seg_a", a)
-            self.supply("seg_b", b)
-            return H.Segment(H.Point(a, model="klein"), H.Point(b, model="klein"))
-        k = self.supply("tan_point", O.klein(g, shape, n))
-        v = self.supply("tan_vector", g.normal(size=shape + (n + 1,)))
-        return H.TangentVector(H.Point(k, model="klein"), v)
+            raw = self.supply("seg_proj", self.rescale(np.stack(ends, axis=-2)))
+            return H.Segment(raw)
+        if style < 0.4:
+            k = self.supply("tan_point", O.klein(g, shape, n))
+            v = self.supply("tan_vector", g.normal(size=shape + (n + 1,)))
+            return H.TangentVector(H.Point(k, model="klein"), v)
+        p = self.rescale(self.pts(shape))
+        v = g.normal(size=shape + (n + 1,))
+        raw = self.supply("tan_proj", np.stack([p, v], axis=-2))
+        return H.TangentVector(raw)
+
+    def reference_aux(self, proj):
+        """derived data from primary data by an independent few-line reference (not the library's _compute_aux_data)"""
+        proj = np.asarray(proj, dtype=float)
+        n1 = proj.shape[-1]
+        J = np.diag([-1.0] + [1.0] * (n1 - 1))
+        if self.kind == "polygon":
+            return np.stack([proj, np.roll(proj, -1, axis=-2)], axis=-2)
+        if self.kind == "tangent":
+            p, v = proj[..., 0, :], proj[..., 1, :]
+            vp = np.einsum("...i,ij,...j->...", v, J, p)
+            pp = np.einsum("...i,ij,...j->...", p, J, p)
+            return np.stack([p, v - p * (vp / pp)[..., None]], axis=-2)
+        out = np.empty_like(proj)
+        for idx in np.ndindex(*proj.shape[:-2]):
+            x1, x2 = proj[idx]
+            A, B, C = x1 @ J @ x1, x1 @ J @ x2, x2 @ J @ x2          # <s x1 + t x2, s x1 + t x2> = A s^2 + 2 B s t + C t^2
+            d = math.sqrt(max(B * B - A * C, 0.0))
+            q = -(B + (d if B >= 0 else -d))                       # cancellation-free roots (s:t) = (q:A) and (C:q)
+            out[idx] = [q * x1 + A * x2, C * x1 + q * x2]
+        return out
 
     def iso(self, shape=()):
         return O.isometries(self.g, shape, self.n)
@@ -83,13 +150,17 @@ class Hist:
             return False
         if tuple(np.asarray(obj.aux_data).shape[:len(obj.shape)]) != tuple(obj.shape):
             return False
-        return O.aux_proj_eq(self.kind, obj.aux_data, fr.aux_data, TOL)
+        if not O.aux_proj_eq(self.kind, obj.aux_data, fr.aux_data, TOL):
+            return False
+        # ... and both are the derived data of the stored primary data (independent reference)
+        ref = self.reference_aux(np.real(np.asarray(obj.proj_data)))
+        return O.aux_proj_eq(self.kind, np.real(np.asarray(obj.aux_data)), ref, 1e-5)
 
     def check_all(self, step, opname):
         for j, o in enumerate(self.objs):
             if not self.coherent(o):
                 self.bad.append({"what": "aux_stale", "after": opname, "step": step, "object": j, "is_current": o is self.cur,
-                                 "expected": "aux_data ~ type(obj)(obj.proj_data).aux_data"})
+                                 "expected": "aux_data ~ type(obj)(obj.proj_data).aux_data ~ reference derived data of proj_data"})
                 return False
         for name, arr, snap in self.inputs:
             if not np.array_equal(arr, snap):
@@ -226,6 +297,17 @@ class Hist:
                     for m in O.MODELS:
                         pts.coords(m)
                     extra.append(pts)
+                elif q == "self_hyperboloid":
+                    # every class here is a Point subclass: the inherited coordinate queries act on (and write into) the object's own data
+                    X.coords("hyperboloid")
+                    X.hyperboloid_coords()
+                    X.coords("projective")
+                elif q == "self_distance":
+                    W = self.make(tuple(X.shape))
+                    self.objs.append(W)
+                    snap = self.snapshot()
+                    X.distance(W)
+                    W.distance(X)
                 elif q == "get_edges":
                     X.get_edges().endpoint_coords("poincare")
                 elif q == "get_vertices":
@@ -492,14 +574,34 @@ def _runit(rng, kind, n):
     c, s_ = rng.choice(PYTH)
     rad = F(rng.randint(1, 4), 5)
     w = [F(0), rad * c, rad * s_] + [F(0)] * (n - 2)
+    sgn = lambda: rng.choice([1, -1])
     if kind == "segment":
-        x1 = [F(1)] + w[1:]                 # Klein point with rational norm
-        mu = F(rng.randint(1, 3), rng.randint(1, 2))
-        return [[lam * t for t in _rowmul(x1, B)], [mu * t for t in _rowmul(e0, B)]]
+        # every combination interior/ideal for the two endpoints, each with its own non-zero factor of either sign; the discriminant of the
+        # library's quadratic is a rational square in all of them (Gram entries are isometry-invariant, an ideal endpoint makes it 4<x1,x2>^2)
+        mu = F(rng.randint(1, 3), rng.randint(1, 2)) * sgn()
+        lam = lam * sgn()
+        while True:
+            style = rng.choice(["oo", "oo", "oi", "io", "ii"])
+            ip = lambda: [F(1)] + Q.rball(rng, n, F(9, 10), 6)
+            idl = lambda: [F(1)] + (Q.rsphere(rng, n) if n > 1 else [F(rng.choice([1, -1]))])
+            if style == "oo":
+                x1, x2 = [F(1)] + w[1:], e0                       # Klein point with rational norm, and the origin
+            elif style == "oi":
+                x1, x2 = ip(), idl()
+            elif style == "io":
+                x1, x2 = idl(), ip()
+            else:
+                x1, x2 = idl(), idl()
+            r1, r2 = [lam * t for t in _rowmul(x1, B)], [mu * t for t in _rowmul(x2, B)]
+            mk = lambda x, y: -x[0] * y[0] + sum(a * b for a, b in zip(x[1:], y[1:]))
+            a = mk(r1, r1) - 2 * mk(r1, r2) + mk(r2, r2)
+            if a != 0 and x1 != x2:                                  # (a = 0: the library divides by zero)
+                return [r1, r2]
     if kind == "tangent":
         nu = F(rng.randint(-2, 2), 2)
         v = [w[k] + nu * e0[k] for k in range(n + 1)]
-        return [[lam * t for t in _rowmul(e0, B)], _rowmul(v, B)]
+        s1, s2 = lam * sgn(), sgn()
+        return [[s1 * t for t in _rowmul(e0, B)], [s2 * t for t in _rowmul(v, B)]]
     raise ValueError(kind)
 
 
@@ -666,7 +768,7 @@ def clauses():
                budget={"quick": 300, "thorough": 4000},
                what="exact-rational histories (<= 6 operations interleaved with the in-place queries) on polygons (hyperbolic and projective class), tangent vectors, segments and points of shapes (), (2,), (2,3): "
                     "after every step composite shape, proj_data and aux_data of the implementation vs the Lean state machine Obj.step / Obj.afterQuery executed over Q "
-                    "(data chosen so that every square root the library takes is rational)"),
+                    "(data chosen so that every square root the library takes is rational; segments with interior/ideal endpoints in every combination and representatives of either sign)"),
         Clause("history_oracle", "oracle", gen_hist, run_hist, judge_hist, site="projective.ProjectiveObject (set/copy/apply/reshape/flatten/__getitem__/__setitem__/stack/combine/astype) + queries",
                budget={"quick": 540, "thorough": 30000},
                what="histories over {copy, apply, reshape, flatten, index, set item, stack, combine, astype} on polygons, segments, tangent vectors of shapes (), (2,), (2,3) "
